@@ -109,7 +109,7 @@ func (x *X) HasDynamic() bool {
 		case "builtin":
 			return n.Name == "map" || n.Name == "filter"
 		case "call":
-			return n.Name == "Var"
+			return n.Name == "Var" || n.Name == "Tuple" || n.Name == "Coalesce"
 		}
 		return false
 	})
